@@ -161,6 +161,41 @@ def rule_c(R, ctx):
     R.ob("C14.c", fn, "fallback", len(fb) >= 2, "from_branch fallbacks: %d" % len(fb))
 
 
+def rule_d(R, ctx):
+    from ylib.formula import Formulas, truth_check, fshow
+    Y = ctx.yrs
+    R.rule("C14.d", "exact formula of BlockIter::can_forward (the walk StickyIndex::at uses to pick the anchoring element): it keeps "
+                    "moving iff !reached_end && (len > 0 || (ptr is Some && (!countable(ptr) || deleted(ptr)))) — once the requested "
+                    "length is consumed the cursor still steps over tombstones and over live non-countable items (formatting "
+                    "marks), so an index is anchored on an element, never on a mark in front of it; compared by truth table")
+    fn = Y.fn("yrs::block_iter::BlockIter::can_forward")
+    fm = Formulas(fn, simp_deep)
+    f = fm.local_formula(0)
+
+    def cls(k, t):
+        t = simp_deep(t) if isinstance(t, tuple) else t
+        if not isinstance(t, tuple):
+            return None
+        if t[0] == "field" and t[1].endswith("BlockIter.reached_end"):
+            return "RE"
+        if t[0] == "bin" and simp(t[2])[0] == "param" and fn.local_name(simp(t[2])[1]) == "len" and simp(t[3])[:2] == ("const", 0):
+            return {"Gt": "LEN", "Ne": "LEN", "Eq": "!LEN", "Le": "!LEN"}.get(t[1])
+        if t[0] == "param" and fn.local_name(t[1]) == "ptr" and k.endswith(" is Some"):
+            return "SOME"
+        if t[0] == "call" and t[1].endswith("::is_countable"):
+            return "CNT"
+        if t[0] == "call" and t[1].endswith("::is_deleted"):
+            return "DEL"
+        return None
+
+    def req(n):
+        g = lambda x: n.get(x, False)
+        return (not g("RE")) and (g("LEN") or (g("SOME") and ((not g("CNT")) or g("DEL"))))
+    ok, cex, keys = truth_check(f, cls, req, max_atoms=10)
+    R.ob("C14.d", fn, "formula", ok, "can_forward = %s" % fshow(f)[:300] if ok else
+         "can_forward deviates from the skip rule: %s; formula = %s" % (cex, fshow(f)[:300]))
+
+
 def check(ctx, R):
     from . import wire_rules
     extra = {}
@@ -168,4 +203,5 @@ def check(ctx, R):
     R.run("C14.a", wire_rules.c14_a, ctx)
     R.run("C14.b", rule_b, ctx)
     R.run("C14.c", rule_c, ctx)
+    R.run("C14.d", rule_d, ctx)
     return extra
